@@ -1,7 +1,7 @@
 #!/bin/bash
 # usage: try_mutant.sh <mutant dir with patch.diff, demo_test.go> <scratch worktree> <property>...
 # 1. confirms in the scratch worktree: builds, existing tests pass, demo fails with / passes without the patch
-# 2. applies the patch to /repo, runs the given checks, undoes it
+# 2. applies the patch to a scratch copy of /repo (under /tmp, removed afterwards) and runs the given checks on it
 export GOFLAGS=-mod=mod GOPROXY=off GOSUMDB=off GOTOOLCHAIN=local
 m="$1"; wt="$2"; shift 2
 pkgdir=$(grep -o -m1 'pkg/[a-z]*\|internal/pkg/[a-z]*\|package directory[^a-z]*[a-z/]*' "$m/demo_test.go" | head -1)
@@ -19,11 +19,13 @@ if go test -vet=off -count=1 -timeout 120s -run . ./$pkgline >/tmp/mut_demo_patc
 rm -f "$wt/$pkgline/zz_demo_test.go"
 if go test -vet=off -count=1 -timeout 300s ./... >/tmp/mut_suite.log 2>&1; then echo "existing tests pass with patch: yes"; else echo "existing tests pass with patch: NO"; grep -v "^ok\|no test files" /tmp/mut_suite.log | head; fi
 git checkout -q -- . && git clean -qfd -e out >/dev/null
-echo "== run checks against /repo with the patch applied"
-cd /repo && git apply "$m/patch.diff" || { echo "patch does not apply to /repo"; exit 3; }
+echo "== run checks against a scratch copy of /repo with the patch applied"
+d=/tmp/bmc-try.$$; rm -rf $d; mkdir -p $d/repo $d/out
+rsync -a --exclude .git /repo/ $d/repo/
+(cd $d/repo && patch -p1 -s < "$m/patch.diff") || { echo "patch does not apply to /repo"; rm -rf $d; exit 3; }
 for p in "$@"; do
-  out=$(cd /verif && ./check $p quick 2>&1); rc=$?
-  echo "$out" | grep "^VIOLATION\|^$p:\|KNOWN-FINDING\|engine fault\|refuted\|no longer" | cut -c1-260
+  out=$(/verif/bin/bmcvc check --tier quick --timeout 20s -repo $d/repo -out $d/out $p 2>&1); rc=$?
+  echo "$out" | grep "^VIOLATION\|^$p:\|KNOWN-FINDING\|engine fault\|refuted\|no longer\|fails" | cut -c1-260
   echo "check $p exit=$rc"
 done
-git -C /repo checkout -- . ; git -C /repo status --short | grep -v '^??' | head -3
+rm -rf $d
